@@ -174,7 +174,9 @@ func (op Divp) Simulate(vm *VM, instr string) error {
 	regDest := get_id(instr[:regBits])
 	regSrc := get_id(instr[regBits : regBits*2])
 
-	if *op.pipeline {
+	// The pipeline phase belongs to the processor executing the instruction, not to the opcode value
+	// (which is shared by every machine and every simulation in the process)
+	if phase, _ := vm.Extra_states["divp_pipeline"].(bool); phase {
 		switch vm.Mach.Rsize {
 		case 8:
 			vm.Registers[regDest] = vm.Registers[regDest].(uint8) / vm.Registers[regSrc].(uint8)
@@ -188,9 +190,9 @@ func (op Divp) Simulate(vm *VM, instr string) error {
 			return errors.New("invalid register size")
 		}
 		vm.Pc = vm.Pc + 1
-		*op.pipeline = false
+		vm.Extra_states["divp_pipeline"] = false
 	} else {
-		*op.pipeline = true
+		vm.Extra_states["divp_pipeline"] = true
 	}
 	return nil
 }
